@@ -796,6 +796,8 @@ def gen_core_case(rng, hard=False, joins=True, nquads=None, nrows=None):
             conds = [[rng.choice(csrc['cols']), rng.choice(psrc['cols'])] for _ in range(rng.choice([1, 1, 2]))]
             if csrc is psrc and rng.random() < 0.4:
                 conds = [[c, c] for c, _ in conds]
+            if csrc is psrc and rng.random() < 0.3:
+                conds = []          # R2RML's plain referencing object map: same logical table, no join condition (the parent's subject on the same row)
             child['poms'].append({'preds': [shared_pred if rng.random() < 0.6 else gen_termmap(rng, csrc['cols'], 'predicate')],
                                   'objs': [{'m': {'k': 'parent', 'v': parent['id'], 'ck': 'iri', 'tt': ''}, 'lang': None, 'dt': None, 'joins': conds}],
                                   'graphs': []})
